@@ -140,7 +140,16 @@ pub fn run(rng: &mut Rng, count: usize, thorough: bool, extra: &[String], out: &
             if produced >= count {
                 break;
             }
-            let g = if rng.chance(1, 6) {
+            let g = if rng.chance(1, 40) {
+                // a small DENSE framework: the exp encoder's cartesian product gets into the thousands (6 arguments
+                // with 5 attackers each: 5^5 = 3125 clauses per argument; 7 arguments: up to 6^6) - size-dependent
+                // slips of that encoder only show there; the all-models oracle still applies (no auxiliary variables)
+                let n = if rng.chance(1, 5) { 7 } else { 6 };
+                let dens = if n == 7 { rng.range(62, 74) } else { rng.range(80, 97) };
+                let mut a = Vec::new();
+                for x in 0..n { for y in 0..n { if rng.below(100) < dens { a.push((x, y)); } } }
+                GenAf { build: Build::Iccma(n, a), recipe: "dense_exp" }
+            } else if rng.chance(1, 6) {
                 let (n, a, r) = funnel(rng);
                 // compact presentation only
                 let mut a2 = a.clone();
@@ -161,12 +170,13 @@ pub fn run(rng: &mut Rng, count: usize, thorough: bool, extra: &[String], out: &
             g
         };
         let af = build_af(&g.build);
-        let heavy = crate::statics::max_defender_product(&af) > 600;
+        let prod = crate::statics::max_defender_product(&af);
+        let heavy = prod > 600 && !(g.recipe == "dense_exp" && prod <= 60_000);
         for name in ENCODERS.iter() {
             if heavy && (*name == "exp_co") {
                 continue;
             }
-            if exhaustive.is_none() && !rng.chance(1, 2) {
+            if exhaustive.is_none() && !rng.chance(1, 2) && !(g.recipe == "dense_exp" && *name == "exp_co") {
                 continue;
             }
             for range in [false, true] {
